@@ -471,6 +471,10 @@ func (fd *Client) Query(input *dynamodb.QueryInput) (*dynamodb.QueryOutput, erro
 		return nil, awserr.New("ValidationException", "The table does not have the specified index: "+indexName, nil)
 	}
 
+	if err := table.CheckStartKey(indexName, mapAttributeValueToTypes(input.ExclusiveStartKey)); err != nil {
+		return nil, awserr.New("ValidationException", err.Error(), nil)
+	}
+
 	if input.ScanIndexForward == nil {
 		input.ScanIndexForward = aws.Bool(true)
 	}
@@ -524,6 +528,10 @@ func (fd *Client) Scan(input *dynamodb.ScanInput) (*dynamodb.ScanOutput, error) 
 	indexName := aws.StringValue(input.IndexName)
 	if indexName != "" && !table.HasIndex(indexName) {
 		return nil, awserr.New("ValidationException", "The table does not have the specified index: "+indexName, nil)
+	}
+
+	if err := table.CheckStartKey(indexName, mapAttributeValueToTypes(input.ExclusiveStartKey)); err != nil {
+		return nil, awserr.New("ValidationException", err.Error(), nil)
 	}
 
 	items, lastKey := table.SearchData(core.QueryInput{
